@@ -25,7 +25,7 @@ theorem process_stagnant (s : VolumeControl ℝ) (h : s.Stagnant) (xs : List (Fr
     (info : Info ℝ) :
     process s xs dt info = (settle s, xs.map (fun f => f.scale (asAmplitude s.volume.raw))) := by
   unfold process
-  simp only [Parameter.settle tw32 s.volume _ info h]
+  simp only [Parameter.settleA tw32 s.volume _ info h]
   apply frameLoop_map
   intro t f
   have hs : Parameter.Settled ({ s.volume with prev := s.volume.raw } : Parameter ℝ ℝ) :=
@@ -50,7 +50,7 @@ theorem process_stagnant (s : PanningControl ℝ) (h : s.Stagnant) (xs : List (F
     (info : Info ℝ) :
     process s xs dt info = (settle s, xs.map (fun f => f.panned s.panning.raw)) := by
   unfold process
-  simp only [Parameter.settle tw32 s.panning _ info h]
+  simp only [Parameter.settleA tw32 s.panning _ info h]
   apply frameLoop_map
   intro t f
   have hs : Parameter.Settled ({ s.panning with prev := s.panning.raw } : Parameter ℝ ℝ) :=
